@@ -35,6 +35,8 @@ def gen_file(ctx):
         defines.append({"k": "Define", "name": n, "value": g.numlit()})
         if r.random() < 0.35:
             defines.append({"k": "Define", "name": n, "value": r.choice(["0.25", "-1.5", "3", "7e-1"])})
+            if r.random() < 0.4:
+                defines.append(dict(defines[-2]))       # ... and once more, word for word as the first time: the last statement still decides
     # alias names, also ones that extend a published model name by a digit / underscore / letters (one word of the language all the same)
     an = r.sample(["MA0", "MyVSS", "AliasX", "slpole_1", "HQETtune", "ISGW2_Dstlnu", "HQET2_Dlnu", "SLPOLE2", "PHSP_1", "SLBKPOLE_DtoKlnu", "VSS1", "ISGW22", "PHSP0"],
                   r.choice([0, 1, 2, 3, 4, 6]))
